@@ -12,7 +12,8 @@ Model of the scheduler `TestHarness._run_tests` of `mesonbuild/mtest.py` as a la
         async with semaphore:                                         -- `acquireStart` / `acquireSkip`
             if interrupted or (repeat > 1 and fail_count): return     -- `acquireSkip`
             res = await test.run(self)                                -- running … `finish i res` (env chooses res)
-            process_test_result(res)
+            process_test_result(res)                                  -- a started test always gets here: a
+                                                                      -- cancellation is absorbed in wait/_run_cmd
             if maxfail and fail_count >= maxfail and res.res.is_bad():
                 maxfail_reached = True; cancel_all_tests()            -- inside `finish`
 
@@ -54,8 +55,6 @@ inductive St where
   | skipped
   /-- cancelled before it got the semaphore: the test never started -/
   | cancelled
-  /-- started, then ended by `CancelledError` without delivering a result -/
-  | vanished
   deriving DecidableEq, Repr
 
 def St.isRunning : St → Bool
@@ -68,12 +67,12 @@ def St.isActive : St → Bool
 
 /-- the future of the task is done -/
 def St.isTerminal : St → Bool
-  | .done _ | .skipped | .cancelled | .vanished => true
+  | .done _ | .skipped | .cancelled => true
   | _ => false
 
 /-- the test program was started -/
 def St.started : St → Bool
-  | .running _ | .done _ | .vanished => true
+  | .running _ | .done _ => true
   | _ => false
 
 /-- where the coroutine `_run_tests` itself is -/
@@ -129,7 +128,6 @@ inductive Label where
   | acquireStart (i : Nat)
   | acquireSkip (i : Nat)
   | finish (i : Nat) (r : TestResult)
-  | vanish (i : Nat)
   deriving DecidableEq, Repr
 
 /-- the transition function: `none` = the label is not enabled in this state -/
@@ -163,7 +161,9 @@ def step (c : Config) (s : State) : Label → Option State
   | .finish i r =>
     match s.st i with
     | .running creq =>
-      if r.isFinished ∧ (creq = true ↔ r = INTERRUPT) then
+      -- a cancelled test reports INTERRUPT, or TIMEOUT when the cancellation met it while it was being
+      -- killed for its time limit; nothing else is ever reported as INTERRUPT (signals are not modelled)
+      if r.isFinished ∧ (r = INTERRUPT → creq = true) ∧ (creq = true → r = INTERRUPT ∨ r = TIMEOUT) then
         let t := s.tally.add! r
         let st1 := upd s.st i (.done r)
         if c.maxfail > 0 ∧ t.fail ≥ c.maxfail ∧ r.isBad then
@@ -173,8 +173,6 @@ def step (c : Config) (s : State) : Label → Option State
           some { s with tally := t, sem := s.sem + 1, st := st1 }
       else none
     | _ => none
-  | .vanish i =>
-    if s.st i = .running true then some { s with st := upd s.st i .vanished, sem := s.sem + 1 } else none
 
 /-- executions: `Exec c tr s` — the label sequence `tr` (oldest first) leads from `init c` to `s` -/
 inductive Exec (c : Config) : List Label → State → Prop where
@@ -238,16 +236,6 @@ def skipAll (c : Config) (s : State) : Nat → State
     | some s2 => s2
     | none => s1
 
-/-- perform every enabled `vanish` for tasks below `k` (silent: a cancelled running task that ends by
-`CancelledError` reports nothing) -/
-def vanishAll (c : Config) (s : State) : Nat → State
-  | 0 => s
-  | k + 1 =>
-    let s1 := vanishAll c s k
-    match step c s1 (.vanish k) with
-    | some s2 => s2
-    | none => s1
-
 /-- advance the main coroutine (and silent skips) until task `i` exists; fuel bounds the main steps -/
 def advanceUntilLaunched (c : Config) (i : Nat) : Nat → State → Option State
   | 0, s => if s.st i = .notLaunched then none else some s
@@ -282,12 +270,11 @@ def replayEvent (c : Config) (s : State) : Event → Except ReplayErr State
     | some s1 => .ok s1
     | none => .error .resultNotEnabled
 
-/-- run main steps and silent task steps to completion (only used once the log is exhausted: a
-cancel-requested test that has not reported by then never will) -/
+/-- run main steps and silent skips to completion -/
 def drain (c : Config) : Nat → State → State
   | 0, s => s
   | fuel + 1, s =>
-    let s1 := skipAll c (vanishAll c s c.n) c.n
+    let s1 := skipAll c s c.n
     match mainStep c s1 with
     | some s2 => drain c fuel s2
     | none => s1
